@@ -596,8 +596,10 @@ func main() {
 	setupF := flag.String("setup", "", "sequential set-up: each listed thread in turn runs one whole request")
 	maxExec := flag.Int("max", 0, "stop after this many executions (0: no limit)")
 	verbose := flag.Bool("v", false, "print the call chain of every step to stderr")
+	pointsF := flag.Bool("points", false, "deliveries to other connections (Session.Broadcast / BroadcastTo) are scheduling points too")
 	edgesF := flag.String("edges", "", "write the lock-order pairs observed (site held, site acquired, count) to this file")
 	flag.Parse()
+	verifsched.EnablePoints(*pointsF)
 	defer func() {
 		if *edgesF != "" {
 			os.WriteFile(*edgesF, []byte(strings.Join(verifsched.Edges(), "\n")+"\n"), 0644)
